@@ -482,8 +482,59 @@ def run(chk):
              and any(isinstance(b, ast.Raise) for b in n.body)]
     stores = [n for n in A.walk_local(ri.node) if isinstance(n, ast.Assign) and A.text(n.targets[0]) in ("self._sites", "self._bonds_h", "self._bonds_v")]
     if not guard:
-        chk.bad("Q4", ri, "neighbourhood guard", "RectangularUnitcell.__init__ no longer rejects patterns in which one label has two "
-                "different neighbourhoods (`len(set(envs)) > 1` -> raise)")
+        # other spellings of the guard: a flag accumulated over the sites (`same = same and first.setdefault(label, env) == env`) tested after
+        # the loops.  Decided: overwritten flag -> the last site decides (U11); accumulated flag over a per-label lookup -> holds; a raise that
+        # depends on the collected neighbourhoods in a shape not known here -> undecided (exit 2); no such raise at all -> the guard is gone.
+        from . import e10
+        loops = [n for n in A.walk_local(ri.node) if isinstance(n, ast.For)
+                 and any(isinstance(c, ast.Call) and A.call_name(c).endswith("site2index") for c in ast.walk(n))]
+        collected = set()
+        for lp in loops:
+            for n in ast.walk(lp):
+                if isinstance(n, ast.Name) and isinstance(n.ctx, ast.Store):
+                    collected.add(n.id)
+                elif isinstance(n, ast.Subscript) and isinstance(n.ctx, ast.Store) and isinstance(n.value, ast.Name):
+                    collected.add(n.value.id)
+                elif isinstance(n, ast.Call) and isinstance(n.func, ast.Attribute) and n.func.attr in ("setdefault", "append", "add", "update"):
+                    b = n.func.value
+                    while isinstance(b, (ast.Subscript, ast.Call, ast.Attribute)):
+                        b = b.value if not isinstance(b, ast.Call) else b.func
+                    if isinstance(b, ast.Name):
+                        collected.add(b.id)
+        dep_guards = [n for n in A.walk_local(ri.node) if isinstance(n, ast.If) and any(isinstance(b, ast.Raise) for b in n.body)
+                      and loops and n.lineno > loops[0].lineno
+                      and any(isinstance(x, ast.Name) and x.id in collected for x in ast.walk(n.test))]
+        over = e10._overwritten_flags(ri.node)
+        if over:
+            flag, lp, sto, g = over[0]
+            chk.bad("Q4", (ri, sto), A.short(sto, 70), f"RectangularUnitcell.__init__: the neighbourhood test `{A.short(sto, 70)}` overwrites the flag `{flag}` at every "
+                    f"site and the guard `if {A.short(g.test, 30)}: raise` looks at it after the loops: only the last site decides, a pattern in which "
+                    f"an earlier label has two different neighbourhoods is accepted")
+        elif not dep_guards:
+            chk.bad("Q4", ri, "neighbourhood guard", "RectangularUnitcell.__init__ no longer rejects patterns in which one label has two "
+                    "different neighbourhoods: no `raise` depends on the neighbourhoods collected per label")
+        else:
+            acc = None
+            for g in dep_guards:
+                names = {x.id for x in ast.walk(g.test) if isinstance(x, ast.Name)}
+                for lp in loops:
+                    for n in ast.walk(lp):
+                        tgt = n.targets[0] if isinstance(n, ast.Assign) else n.target if isinstance(n, ast.AugAssign) else None
+                        if isinstance(tgt, ast.Name) and tgt.id in names:
+                            val = n.value
+                            accumulates = isinstance(n, ast.AugAssign) and isinstance(n.op, (ast.BitAnd, ast.BitOr)) or \
+                                any(isinstance(x, ast.Name) and x.id == tgt.id for x in ast.walk(val)) or isinstance(val, ast.Constant)
+                            per_label = any(isinstance(x, ast.Compare) and any(isinstance(y, (ast.Subscript, ast.Call)) for z in [x.left] + x.comparators for y in ast.walk(z))
+                                            for x in ast.walk(lp))
+                            if accumulates and per_label:
+                                acc = (g, n)
+            if acc is None:
+                raise AnalysisError("Q4: RectangularUnitcell.__init__ raises depending on the collected neighbourhoods, but the shape of the guard is "
+                                    "not one this rule decides (any(len(set(envs)) > 1 ..) or a flag accumulated over the sites)")
+            chk.verdict("Q4", (ri, acc[0]), acc[0].test, True, "")
+            dom = stores and all(cfg.must_pass([s_], [acc[0].test]) for s_ in stores)
+            chk.verdict("Q4", (ri, acc[0]), "guard dominates the unique sites/bonds", True if dom else False,
+                        "unique sites/bonds are assigned on a path that skips the neighbourhood guard")
     else:
         g = guard[0]
         holds, over_all = two_neighbourhoods(g.test)
